@@ -101,12 +101,14 @@ package drpcpool
 //@   modifies *
 //@   loop 1 invariant [p] p == p0
 //@   site (*Pool).closeEntry assume [cached-nonnil] arg1.val != nil
-//@   check [C15.emptied] p.order.count == 0 && p.order.head == nil
+//@   check [C15.emptied] p.order.count == 0 && p.order.head == nil && p.order.tail == nil
+//@   check [C15.emptied-map] fresh(p.entries)
 
 // poolConn.Close may be called more than once by users of the connection.
 //@ func (*poolConn).Close
 //@   props C15
 //@   modifies *
+//@   check [C15.marks-closed] eventCount("call:(*Chan).Close") == 1
 
 // the expiry callback: closes the connection and unlinks the entry under the pool lock
 //@ func (*Pool).Put$1
